@@ -11,4 +11,4 @@ for d in "$SRC"/out_C*; do
     l=$(basename "$f" .diff | sed 's/change//')
     echo "$d $l $id"
   done
-done | xargs -P "$J" -L 1 sh -c 'tools/seeded.py $0 $1 $2 --checks RELATED --keep-as ${2}_$1 2>&1 | grep -E "CONFIRMED|CAUGHT|silent|FAULT|PATCH" | sed "s/^/$2_$1 /" | cut -c1-200'
+done | xargs -P "$J" -L 1 sh -c 'tools/seeded.py $0 $1 $2 --checks SMART --keep-as ${2}_$1 2>&1 | grep -E "CONFIRMED|CAUGHT|silent|FAULT|PATCH" | sed "s/^/$2_$1 /" | cut -c1-200'
